@@ -186,6 +186,60 @@ def gen_pairs(nps):
     return cases
 
 
+def gen_strides(nps):
+    """blocking strided accesses whose byte step in the FASTEST dimension is just below / at / above 2^31 and 2^32 (fixed-size
+    1-D variables), and a 1-D record variable whose records are more than 1 GiB apart accessed with stride 2"""
+    cases = []
+    for (name, fmt, xt, nelems) in [('f5-byte', 5, D.NC_BYTE, 2 * G32 + 64), ('f5-int', 5, D.NC_INT, G32 + 64), ('f2-short-last', 2, D.NC_SHORT, G31 - 8)]:
+        xsz = D.XT_SIZE[xt]; mem = D.XT_MEM[xt]
+        steps = sorted(set(b // xsz for b in (G31 - 4, G31, G31 + 4, G32 - 4, G32, G32 + 12) if b % xsz == 0))
+        for np in nps:
+            for st in steps:
+                cnt = 2
+                if 5 + st * (cnt - 1) + 1 > nelems: continue
+                for coll in (1, 0):
+                    c = Case('STRIDE-%s-np%d-st%d-c%d' % (name, np, st, coll), np)
+                    c.op('*', 'create', f=0, path='a.nc', fmt=fmt, hints=TIGHT)
+                    c.op('*', 'def_dim', f=0, name='d', len=nelems); c.op('*', 'def_dim', f=0, name='s', len=4)
+                    c.op('*', 'def_var', f=0, name='big', xtype=D.XT_NAME[xt], dims=[0]); c.op('*', 'def_var', f=0, name='after', xtype='int', dims=[1])
+                    c.op('*', 'enddef', f=0)
+                    if not coll: c.op('*', 'begin_indep', f=0)
+                    r0 = np - 1; vals = [11, 22]
+                    ctx = dict(kind='fixed', rank=r0, vals=vals, first=5, second=5 + st, wrapped=5 + (st * xsz % G32) // xsz, coll=coll)
+                    for rr in range(np):
+                        if rr == r0: ctx['put'] = c.op(rr, 'put', f=0, form='vars', v=0, s=[5], c=[cnt], st=[st], coll=coll, mem=mem, vals=vals)
+                        elif coll: c.op(rr, 'put', f=0, form='vars', v=0, s=[0], c=[0], st=[1], coll=1, mem=mem)
+                    if not coll: c.op('*', 'end_indep', f=0)
+                    c.op('*', 'sync', f=0)
+                    ctx['g1'] = c.op('*', 'get', f=0, form='vara', v=0, s=[5], c=[1], coll=1, mem=mem)
+                    ctx['g2'] = c.op('*', 'get', f=0, form='vara', v=0, s=[5 + st], c=[1], coll=1, mem=mem)
+                    ctx['gs'] = c.op('*', 'get', f=0, form='vars', v=0, s=[5], c=[cnt], st=[st], coll=1, mem=mem)
+                    ctx['gw'] = c.op('*', 'get', f=0, form='vara', v=0, s=[ctx['wrapped']], c=[1], coll=1, mem=mem) if ctx['wrapped'] not in (5, 5 + st) else None
+                    c.op('*', 'close', f=0); c.op(0, 'unlink', path='a.nc')
+                    cases.append((c, ctx))
+    # 1-D record variable next to a record variable of 1 GiB per record: consecutive records of r1 are 1 GiB + 4 bytes apart
+    for np in nps:
+        for coll in (1, 0):
+            c = Case('STRIDE-rec-np%d-c%d' % (np, coll), np)
+            c.op('*', 'create', f=0, path='a.nc', fmt=2, hints=TIGHT)
+            c.op('*', 'def_dim', f=0, name='t', unlim=1); c.op('*', 'def_dim', f=0, name='d', len=1 << 28)
+            c.op('*', 'def_var', f=0, name='bigrec', xtype='int', dims=[0, 1]); c.op('*', 'def_var', f=0, name='r1', xtype='int', dims=[0])
+            c.op('*', 'enddef', f=0)
+            if not coll: c.op('*', 'begin_indep', f=0)
+            r0 = np - 1; vals = [31, 32, 33]
+            ctx = dict(kind='rec', rank=r0, vals=vals, coll=coll)
+            for rr in range(np):
+                if rr == r0: ctx['put'] = c.op(rr, 'put', f=0, form='vars', v=1, s=[0], c=[3], st=[2], coll=coll, mem='int', vals=vals)
+                elif coll: c.op(rr, 'put', f=0, form='vars', v=1, s=[0], c=[0], st=[1], coll=1, mem='int')
+            if not coll: c.op('*', 'end_indep', f=0)
+            c.op('*', 'sync', f=0)
+            ctx['gs'] = c.op('*', 'get', f=0, form='vars', v=1, s=[0], c=[3], st=[2], coll=1, mem='int')
+            ctx['ga'] = c.op('*', 'get', f=0, form='vara', v=1, s=[0], c=[5], coll=1, mem='int')
+            c.op('*', 'close', f=0); c.op(0, 'unlink', path='a.nc')
+            cases.append((c, ctx))
+    return cases
+
+
 def gen_access(quick, nps):
     cases = []
     for (name, fmt, xt, dims, isrec) in BIGVARS:
@@ -284,6 +338,29 @@ def main(tier=None):
         if bad: ck.violation(('value', 'request pair', 'offsets 2^31/2^32 multiples apart'), c.text(), '%s: blocks at elements %d and %d: %s' % (c.name, x['first'], x['second'], bad))
         ck.outcomes.add(('pair', c.name))
     ck.cov['request_pairs'] = len(pairs)
+    strides = gen_strides((1, 2) if thorough else (1,))
+    sres = runner.run_cases(b['vx'], [x[0] for x in strides], batch=8, timeout=900)
+    for (c, x), r in zip(strides, sres):
+        ck.cov['evaluations'] += 1
+        if r.status != 'ok': ck.violation((r.status, 'strided access', first_frame(r.detail)), c.text(), c.name + ': ' + r.detail[:500]); continue
+        bad = None
+        p_ = r.r(x['rank'], x['put'])
+        if p_ is None or p_.rc != 0: bad = 'put_vars returned %s' % (p_.rc if p_ is not None else None)
+        for k in r.ranks:
+            if bad: break
+            if x['kind'] == 'fixed':
+                chk = [(x['g1'], [x['vals'][0]], 'first element'), (x['g2'], [x['vals'][1]], 'second element'), (x['gs'], x['vals'], 'both through get_vars')]
+                if x['gw'] is not None: chk.append((x['gw'], [0], 'the element at the 32-bit-wrapped distance (never written)'))
+            else:
+                chk = [(x['gs'], x['vals'], 'records 0, 2, 4 through get_vars'), (x['ga'], [x['vals'][0], None, x['vals'][1], None, x['vals'][2]], 'records 0..4 through get_vara')]
+            for ln, want, what in chk:
+                o = r.r(k, ln)
+                got = o.vals() if o is not None else None
+                if o is None or o.rc != 0 or len(got) != len(want) or any(w is not None and g != w for g, w in zip(got, want)):
+                    bad = 'rank %d reads %s as %s (rc=%s), expected %s' % (k, what, got, o.rc if o is not None else None, want); break
+        if bad: ck.violation(('value', 'strided access', 'byte step around 2^31 / 2^32 in the fastest dimension'), c.text(), '%s: %s' % (c.name, bad))
+        ck.outcomes.add(('stride', c.name))
+    ck.cov['large_strides'] = len(strides)
     for (c, lines, le, fmt, vv), r in zip(dcases, res):
         ck.cov['evaluations'] += 1
         if r.status != 'ok': ck.violation((r.status, 'enddef', first_frame(r.detail)), c.text(), c.name + ': ' + r.detail[:400]); continue
@@ -322,7 +399,7 @@ def main(tier=None):
     ck.cov['distinct_nontrivial'] = len(ck.outcomes)
     ck.cov['rule'] = ('(1) format x 1-3 variables x fixed/record in every order x per-variable byte size just below/at/above 2^31-4, 2^31, 2^32-4, 2^32 (and 2^63-4 for CDF-5; several factorisations) plus sizes that push the next begin over 2 GiB; '
                       'expected NC_NOERR/NC_EVARSIZE from the rule table of the property; dimension lengths around every limit. (2) for 7 large variables (fixed/record, 1-D and 2-D with one dimension > 2^31-1, CDF-1/2/5) elements whose byte offset or '
-                      'linear index lies just below/across/above 2^31 and 2^32 are written (blocking, nonblocking, strided with displacement > 32 bits) on sparse files and read back in the same session and after reopen; pairs of contiguous nonblocking requests (iput, bput, iget) completed by one wait whose offsets differ by the length of the first plus 1-3 x 2^31 / 2^32')
+                      'linear index lies just below/across/above 2^31 and 2^32 are written (blocking, nonblocking, strided with displacement > 32 bits) on sparse files and read back in the same session and after reopen; pairs of contiguous nonblocking requests (iput, bput, iget) completed by one wait whose offsets differ by the length of the first plus 1-3 x 2^31 / 2^32; blocking put/get_vars on 1-D variables with a byte step of 2^31-4 ... 2^32+12 in the fastest dimension, and on a 1-D record variable whose records lie 1 GiB + 4 bytes apart')
     ck.sample(dcases[0][0].text()[:800]); ck.sample(acc[0][0].text()[:1500])
     ck.assumptions += ['CDF-5 definitions whose later variables would start beyond 2^63 are not generated', 'sparse files on tmpfs; nothing of the huge extents is ever materialised']
     runner.cleanup()
